@@ -246,3 +246,89 @@ func VerifH_C08_Decode() {
 	vrt.Observe("arg", got)
 	vrt.Assert(vrt.StrEq(got, string(want)), "c08.argument-value")
 }
+
+// ---- concatenation of multi-line pieces at different columns
+
+// genLines: a double-quoted content of 1..3 lines; continuation lines are indented by a
+// solver-chosen number of blanks around and beyond the quote columns in play.
+func genLines(tag string, maxLines int) []byte {
+	var raw []byte
+	if vrt.Bool(tag + ".l0") {
+		raw = append(raw, 'a')
+	}
+	nl := vrt.Choice(tag+".lines", maxLines+1)
+	for i := 1; i <= nl; i++ {
+		raw = append(raw, '\n')
+		k := []int{0, 3, 8, 13, 17}[vrt.Choice(tag+".ind"+strconv.Itoa(i), 5)]
+		for j := 0; j < k; j++ {
+			raw = append(raw, ' ')
+		}
+		raw = append(raw, 'b')
+	}
+	return raw
+}
+
+// VerifH_C08_Concat: description P1 + P2 [+ P3]; with line breaks and indentation
+// between the pieces; every piece decodes by its OWN quote column.
+func VerifH_C08_Concat() {
+	text := "description "
+	np := 2 + vrt.Choice("pieces", vrt.Param("extra", 1)+1)
+	var want []byte
+	blank := false
+	for p := 0; p < np; p++ {
+		tag := "p" + strconv.Itoa(p)
+		col := 0
+		for i := len(text) - 1; i >= 0 && text[i] != '\n'; i-- {
+			if text[i] == '\t' {
+				col += 8
+			} else {
+				col++
+			}
+		}
+		raw := genLines(tag, vrt.Param("lines", 1))
+		if vrt.Bool(tag + ".single") {
+			text += "'" + string(raw) + "'"
+			want = append(want, raw...)
+		} else {
+			dec, b := specDecode(raw, col)
+			blank = blank || b
+			text += "\"" + string(raw) + "\""
+			want = append(want, dec...)
+		}
+		if p+1 < np {
+			switch vrt.Choice(tag+".sep", 4) {
+			case 0:
+				text += " + "
+			case 1:
+				text += "\n + "
+			case 2:
+				text += " +\n      "
+			default:
+				text += "\n\t+ /* c */ "
+			}
+		}
+	}
+	text += ";"
+	vrt.Class("C08-empty-lines-inside-double-quoted-string-are-dropped", blank)
+	vrt.Reach("c08.concat")
+	tree, err := Parse("in.yang", text, nil)
+	if err != nil {
+		vrt.Observe("parse-error", text, err.Error())
+	}
+	vrt.Assert(err == nil, "c08.concat.accepted")
+	if err != nil {
+		return
+	}
+	got := tree.Root.Argument().String()
+	vrt.Observe("text", text)
+	vrt.Observe("arg", got)
+	vrt.Assert(vrt.StrEq(got, string(want)), "c08.concat.argument-value")
+	// C10: the same value written in another quoting form (one single-quoted string)
+	// gives the same argument
+	tree2, err2 := Parse("in.yang", "description '"+string(want)+"';", nil)
+	if err2 != nil {
+		vrt.Assert(false, "c10.single-quoted-form-accepted")
+		return
+	}
+	vrt.Assert(vrt.StrEq(tree2.Root.Argument().String(), got), "c10.concatenated-form-equals-single-quoted-form")
+}
